@@ -47,7 +47,7 @@ def check(model: Model, run: Run) -> None:
                                   "a filter str() wrote (any depth, any number of clauses) is no longer read back")
     run.floor("guarded raises in the filter string parser", n_guards, 10)
     # ---- locate the serialiser through the escape pattern's use site --------------------
-    subs = [s for s in find_sites(model) if s.module == FILTER and s.api == "sub" and isinstance(s.pattern, bytes)]
+    subs = [s for s in find_sites(model, (FILTER,)) if s.module == FILTER and s.api == "sub" and isinstance(s.pattern, bytes)]
     # the value serialiser is the module function the __str__ methods hand their bytes fields to; its substitution is the escape site
     from collections import Counter
     called = Counter()
@@ -257,7 +257,7 @@ def check(model: Model, run: Run) -> None:
         # what the un-escaper accepts: its escape pattern must match the three bytes and the hex check must accept the two digits
         if len(unesc) != 1:
             raise AnalysisError("un-escaper substitution not found")
-        hexs = [s for s in find_sites(model) if s.module == FILTER and s.api in ("match", "fullmatch") and s.func.startswith(unesc[0].func)]
+        hexs = [s for s in find_sites(model, (FILTER,)) if s.module == FILTER and s.api in ("match", "fullmatch") and s.func.startswith(unesc[0].func)]
         R1 = Lang(build(unesc[0].pattern, unesc[0].flags, "fullmatch"))
         w = difference_witness(W, R1)
         ok1 = w is None
@@ -313,7 +313,7 @@ def check(model: Model, run: Run) -> None:
 def strict_hex_decoding(model: Model, run: Run, unesc_site, rule: str) -> None:
     """the two characters after the escape lead byte are decoded by a strict hex decoder, or checked against a pattern whose
     language is exactly two hex digits before a lenient one (bytes.fromhex skips blanks, int() takes signs/underscores) is used"""
-    hexs = [s for s in find_sites(model) if s.module == FILTER and s.api in ("match", "fullmatch") and s.func.startswith(unesc_site.func)]
+    hexs = [s for s in find_sites(model, (FILTER,)) if s.module == FILTER and s.api in ("match", "fullmatch") and s.func.startswith(unesc_site.func)]
     ufi0 = model.functions[unesc_site.func]
     LENIENT = {"bytes.fromhex": "skips ASCII whitespace", "bytearray.fromhex": "skips ASCII whitespace", "int": "accepts signs, underscores, whitespace and prefixes"}
     STRICT = ("base64.b16decode", "binascii.unhexlify", "binascii.a2b_hex")
